@@ -10,7 +10,7 @@
     'magic | 'cell | 'bitstring | 'addr | 'tonbits | 'tlint | 'acct |
     'maybe (fam arg) *)
 From Coq Require Import List NArith ZArith String Bool.
-From Tongo Require Import Lib.Bits Lib.Res Lib.Sx Model.BitString Model.BocParse Model.JsonText Model.Json.
+From Tongo Require Import Lib.Bits Lib.Res Lib.Sx Model.BitString Model.BitStringD Model.BocParse Model.JsonText Model.Json.
 Import ListNotations.
 Local Open Scope string_scope.
 Local Open Scope list_scope.
@@ -85,6 +85,21 @@ Definition print_fam (nm : string) (arg v : sx) : option (res str) :=
         Some (if (free <=? 2000)%N then print_bitstring_bs (written_bs b (N.to_nat free))
               else Ok (print_bitstring b))
       else None
+  | SL [SBits pre; SBits tail], SBits b =>
+      (* the value is what ReadBits returns after |pre| bits of a source holding
+         pre ++ b ++ tail: stale bits of tail stay behind its length *)
+      if is "bitstring" then Some (do r <- read_bs pre b tail; print_bitstring_bs r) else None
+  | SL [SBits pre; SBits tail], SL _ =>
+      if is "addr" then
+        match addr_of_sx v with
+        | Some (AddrExtern b) =>
+            Some (do r <- read_bs pre b tail; Ok (print_msgaddr (AddrExtern (abs r))))
+        | Some (AddrVar any alen wc b) =>
+            Some (do r <- read_bs pre b tail; Ok (print_msgaddr (AddrVar any alen wc (abs r))))
+        | Some a => Some (Ok (print_msgaddr a))
+        | None => None
+        end
+      else None
   | SN _, SL [SZ wc; SBytes addr] => if is "acct" then Some (print_account wc addr) else None
   | SN _, SL _ => if is "addr" then
                     match addr_of_sx v with Some a => Some (Ok (print_msgaddr a)) | None => None end
@@ -95,7 +110,7 @@ Definition print_fam (nm : string) (arg v : sx) : option (res str) :=
 (* parsers: family -> text -> value sx *)
 Definition parse_fam (nm : string) (arg : sx) : option (str -> sx) :=
   let is x := String.eqb nm x in
-  match arg with
+  match (match arg with SL _ => SN 0 | a => a end) with
   | SN w =>
       if is "uint" then Some (fun p => out_res SN (parse_uint_json w p))
       else if is "int" then Some (fun p => out_res SZ (parse_int_json w p))
